@@ -85,6 +85,7 @@ type partialCase struct {
 	Replace string   `json:"replace,omitempty"`       // "Field:NewType tag" for one field, or ""
 	Kind    string   `json:"kind,omitempty"`          // "" ok · nonstruct · noorigin
 	After   bool     `json:"after,omitempty"`         // rejection kinds: a well-formed declaration `type a origin.T` stands before the ill-formed one
+	Repoint bool     `json:"repoint,omitempty"`       // the declaration names another struct of the origin package (Decoy) in a first run and is pointed at T before the second run, over the tree the first run left
 	WithDC  bool     `json:"with_deepcopy,omitempty"` // the package also holds a struct enabled for the deepcopy generator (which runs first, in the same Execute) with fields of the foreign named types
 	res     *partialRes
 }
@@ -99,7 +100,7 @@ type partialRes struct {
 
 func (c *partialCase) originSrc(pkg string) string {
 	var b strings.Builder
-	fmt.Fprintf(&b, "package %s\n\nimport (\n\t\"time\"\n\n\t\"%s/lib\"\n\t\"%s/%s/internal/conf\"\n)\n\nvar _ time.Duration\nvar _ lib.Thing\n\ntype Item struct {\n\tA int\n\tB []string\n}\n\ntype Kind string\n\ntype Gen[T any] struct{ V T }\n\ntype Doer interface{ Do() }\n\ntype settings struct {\n\tN int\n\tM map[string]int\n}\n\ntype (\n\tItemAlias = Item\n\tSettings  = settings\n\tConf      = conf.Conf\n\tText      = string\n)\n\n", pkg, genMod, genMod, pkg)
+	fmt.Fprintf(&b, "package %s\n\nimport (\n\t\"time\"\n\n\t\"%s/lib\"\n\t\"%s/%s/internal/conf\"\n)\n\nvar _ time.Duration\nvar _ lib.Thing\n\ntype Item struct {\n\tA int\n\tB []string\n}\n\ntype Kind string\n\ntype Decoy struct{ Z int }\n\ntype Gen[T any] struct{ V T }\n\ntype Doer interface{ Do() }\n\ntype settings struct {\n\tN int\n\tM map[string]int\n}\n\ntype (\n\tItemAlias = Item\n\tSettings  = settings\n\tConf      = conf.Conf\n\tText      = string\n)\n\n", pkg, genMod, genMod, pkg)
 	b.WriteString("type T struct {\n")
 	for _, f := range c.Fields {
 		if f.Doc != "" {
@@ -336,12 +337,19 @@ func (c *partialCase) probe(pkg, origin string) string {
 
 func partialJob(cases []*partialCase) *genJob {
 	// both shipped generators in one Execute, deepcopy first: what one of them learnt about a type must not leak into the other
-	job := &genJob{Files: map[string]string{"lib/lib.go": partialLib}, Gens: []string{"deepcopy", "partialstruct"}, Runs: 1, ProbeCommon: partialProbeCommon, Probes: map[string]string{}}
+	// two runs over one tree; for the cases with Repoint the declaration names another origin struct (Decoy) in the
+	// first run and is pointed at T before the second: what the second run writes is what is judged
+	job := &genJob{Files: map[string]string{"lib/lib.go": partialLib}, Gens: []string{"deepcopy", "partialstruct"}, Runs: 2, ProbeCommon: partialProbeCommon, Probes: map[string]string{}}
+	job.Edits = []map[string]string{{}}
 	for i, c := range cases {
 		pkg, origin := fmt.Sprintf("p%d", i), fmt.Sprintf("o%d", i)
 		job.Files[origin+"/o.go"] = c.originSrc(origin)
 		job.Files[origin+"/internal/conf/conf.go"] = partialConf
 		job.Files[pkg+"/p.go"] = c.partialSrc(pkg, origin)
+		if c.Repoint && c.Kind == "" {
+			job.Edits[0][pkg+"/p.go"] = job.Files[pkg+"/p.go"]
+			job.Files[pkg+"/p.go"] = strings.Replace(job.Files[pkg+"/p.go"], fmt.Sprintf("type x %s.T\n", origin), fmt.Sprintf("type x %s.Decoy\n", origin), 1)
+		}
 		job.Entry = append(job.Entry, "./"+pkg)
 		if c.Kind == "" {
 			job.Probes[pkg] = c.probe(pkg, origin)
@@ -353,16 +361,19 @@ func partialJob(cases []*partialCase) *genJob {
 func (c *partialCase) fill(out *genRunOut, i int) {
 	pkg := fmt.Sprintf("p%d", i)
 	r := &partialRes{}
-	if len(out.ExecErr) > 0 {
-		r.execErr = out.ExecErr[0]
+	if n := len(out.ExecErr); n > 0 {
+		r.execErr = out.ExecErr[n-1]
+		if r.execErr == "" && !c.Repoint {
+			r.execErr = out.ExecErr[0]
+		}
 	} else {
 		r.execErr = "not run " + out.Harness
 	}
-	if len(out.BuildFail) > 0 {
-		r.build = out.BuildFail[0][pkg]
+	if n := len(out.BuildFail); n > 0 {
+		r.build = out.BuildFail[n-1][pkg]
 	}
-	if len(out.Generated) > 0 {
-		r.gen = out.Generated[0][pkg+"/"+pipeBase+".partialstruct.go"]
+	if n := len(out.Generated); n > 0 {
+		r.gen = out.Generated[n-1][pkg+"/"+pipeBase+".partialstruct.go"]
 	}
 	for _, l := range strings.Split(out.ProbeOut, "\n") {
 		f := strings.SplitN(l, " ", 2)
@@ -542,7 +553,7 @@ func (c *partialCase) Shrinks() []Case {
 	}
 	for i := range c.Fields {
 		if len(c.Fields) > 1 {
-			n := &partialCase{Fields: append(append([]PField{}, c.Fields[:i]...), c.Fields[i+1:]...), Replace: c.Replace, Kind: c.Kind, After: c.After, WithDC: c.WithDC}
+			n := &partialCase{Fields: append(append([]PField{}, c.Fields[:i]...), c.Fields[i+1:]...), Replace: c.Replace, Kind: c.Kind, After: c.After, WithDC: c.WithDC, Repoint: c.Repoint}
 			for _, o := range c.Omit {
 				if o != c.Fields[i].Name {
 					n.Omit = append(n.Omit, o)
@@ -555,19 +566,19 @@ func (c *partialCase) Shrinks() []Case {
 		}
 	}
 	for i := range c.Omit {
-		out = append(out, &partialCase{Fields: c.Fields, Omit: append(append([]string{}, c.Omit[:i]...), c.Omit[i+1:]...), Replace: c.Replace, Kind: c.Kind, After: c.After, WithDC: c.WithDC})
+		out = append(out, &partialCase{Fields: c.Fields, Omit: append(append([]string{}, c.Omit[:i]...), c.Omit[i+1:]...), Replace: c.Replace, Kind: c.Kind, After: c.After, WithDC: c.WithDC, Repoint: c.Repoint})
 	}
 	if c.Replace != "" {
-		out = append(out, &partialCase{Fields: c.Fields, Omit: c.Omit, Kind: c.Kind, After: c.After, WithDC: c.WithDC})
+		out = append(out, &partialCase{Fields: c.Fields, Omit: c.Omit, Kind: c.Kind, After: c.After, WithDC: c.WithDC, Repoint: c.Repoint})
 	}
 	for i, f := range c.Fields {
 		if f.Tag != "" {
-			n := &partialCase{Fields: append([]PField{}, c.Fields...), Omit: c.Omit, Replace: c.Replace, Kind: c.Kind, After: c.After, WithDC: c.WithDC}
+			n := &partialCase{Fields: append([]PField{}, c.Fields...), Omit: c.Omit, Replace: c.Replace, Kind: c.Kind, After: c.After, WithDC: c.WithDC, Repoint: c.Repoint}
 			n.Fields[i].Tag = ""
 			out = append(out, n)
 		}
 		if f.Ty != 0 {
-			n := &partialCase{Fields: append([]PField{}, c.Fields...), Omit: c.Omit, Replace: c.Replace, Kind: c.Kind, After: c.After, WithDC: c.WithDC}
+			n := &partialCase{Fields: append([]PField{}, c.Fields...), Omit: c.Omit, Replace: c.Replace, Kind: c.Kind, After: c.After, WithDC: c.WithDC, Repoint: c.Repoint}
 			n.Fields[i].Ty = 0
 			out = append(out, n)
 		}
@@ -641,6 +652,7 @@ func genPartial(r *Rng) *partialCase {
 		}
 	}
 	c.WithDC = r.Chance(30)
+	c.Repoint = r.Chance(25)
 	if r.Chance(25) {
 		// replace a field of the origin's named struct type by the partial struct generated for that type
 		overlap := r.Chance(35) // the replace tag may name a field the omit tag excludes: omitted stays omitted
@@ -770,7 +782,7 @@ func init() {
 			Name: "origins", Quick: 500, Thorough: 4000, New: func() Case { return &partialCase{} },
 			Gen:      func(r *Rng, i int) Case { return genPartial(r) },
 			BatchRun: partialBatch, ShrinkBudget: 25, MaxShrinks: 6,
-			Rule: "origin structs in a second package with 1–6 fields over a menu of 26 types (instantiated generic types of the library package and of the origin's own package among them, at the top of a field type and below a pointer in a map; scalars, slices, maps, arrays, pointers, named types of the origin's package, of another module package and of time, error, any, a defined interface, exported aliases of the origin's package for a struct of that package, for an unexported struct, for a struct of an internal package and for string) and 8 tags (dots, commas, brackets, non-ASCII, %v, @x), every combination of omit tags and sometimes a replace tag; the deepcopy generator runs first in the same Execute, and in a third of the packages it has a struct to generate for whose fields have the same foreign named types (lib.Thing brings its own DeepCopy methods) (a third of them naming a field that is also omitted); `type x origin.T` generated with the real generator (100 per Execute), compiled, and a probe reflecting over the generated struct vs the origin (names, order, types, tags) and running DeepCopyAs on a value whose containers are allocated but empty, on a filled value and on nil; compared with the model: field list as name / printed type / tag",
+			Rule: "origin structs in a second package (two runs over one tree; in a quarter of the cases the declaration names another struct of the origin package in the first run and is pointed at the origin before the second, whose output is what is judged) with 1–6 fields over a menu of 26 types (instantiated generic types of the library package and of the origin's own package among them, at the top of a field type and below a pointer in a map; scalars, slices, maps, arrays, pointers, named types of the origin's package, of another module package and of time, error, any, a defined interface, exported aliases of the origin's package for a struct of that package, for an unexported struct, for a struct of an internal package and for string) and 8 tags (dots, commas, brackets, non-ASCII, %v, @x), every combination of omit tags and sometimes a replace tag; the deepcopy generator runs first in the same Execute, and in a third of the packages it has a struct to generate for whose fields have the same foreign named types (lib.Thing brings its own DeepCopy methods) (a third of them naming a field that is also omitted); `type x origin.T` generated with the real generator (100 per Execute), compiled, and a probe reflecting over the generated struct vs the origin (names, order, types, tags) and running DeepCopyAs on a value whose containers are allocated but empty, on a filled value and on nil; compared with the model: field list as name / printed type / tag",
 		},
 		{
 			Name: "unnamed-interfaces", Quick: 40, Thorough: 300, New: func() Case { return &partialCase{} },
